@@ -37,6 +37,16 @@ TECH = {
 }
 
 
+def _extra_technique(m):
+    kinds = [k for _, k, _f in m.OBLIGATIONS]
+    extra = []
+    if any(k.startswith("CELLS") or k in ("BITS", "AFFINE", "ORDER", "LAYOUT parity map") for k in kinds):
+        extra.append("finite-cell / free-term / stated-bounded abstract evaluation of the functions' syntax trees (sa/cells.py, own evaluator, nothing imported or run)")
+    extra.append("repository-wide necessary-condition rules over the anchor modules (MEMO cache keys, SET-ORDER, FALSY-DEFAULT, MUTABLE-DEFAULT, IDENTITY, ALIAS, "
+                 "CTOR-/SAME-NAME-FORWARD, ERROR-SENTINEL, STRIP-SET, GENERATOR-ONCE, LOOP-LEFTOVER)")
+    return "; " + "; ".join(extra)
+
+
 def main():
     checks = []
     for i in range(1, 21):
@@ -59,7 +69,7 @@ def main():
             },
             "level_note": ("Decided clauses only: " + m.EXPLANATION + " Rule kinds: " + "; ".join(dict.fromkeys(k for _, k, _f in m.OBLIGATIONS)) + ". Trusted base: Python ast of the working tree, the CFG / interval / layout / stack engines in /verif/sa, "
                            "oracle tables in /verif/spec transcribed from the cited specifications."),
-            "technique": "static analysis: " + TECH[pid],
+            "technique": "static analysis: " + TECH[pid] + _extra_technique(m),
         })
     man = {
         "version": 1,
